@@ -4,6 +4,7 @@ import (
 	"bufio"
 	"fmt"
 	"io"
+	"unsafe"
 
 	"github.com/tuneinsight/lattigo/v6/utils/buffer"
 )
@@ -174,17 +175,15 @@ func (v *Vector[T]) ReadFrom(r io.Reader) (n int64, err error) {
 
 		n += inc
 
-		if cap(*v) < size {
-			*v = make([]T, size)
+		if size < 0 {
+			return n, fmt.Errorf("invalid vector length: %d", size)
 		}
-
-		*v = (*v)[:size]
 
 		var t T
 		switch any(t).(type) {
 		case uint, uint64, int, int64, float64:
 
-			if inc, err = buffer.ReadAsUint64Slice[T](r, *v); err != nil {
+			if inc, err = readGrowing(v, size, func(c []T) (int64, error) { return buffer.ReadAsUint64Slice[T](r, c) }); err != nil {
 				return n + inc, fmt.Errorf("buffer.ReadAsUint64Slice[%T]: %w", t, err)
 			}
 
@@ -192,7 +191,7 @@ func (v *Vector[T]) ReadFrom(r io.Reader) (n int64, err error) {
 
 		case uint32, int32, float32:
 
-			if inc, err = buffer.ReadAsUint32Slice[T](r, *v); err != nil {
+			if inc, err = readGrowing(v, size, func(c []T) (int64, error) { return buffer.ReadAsUint32Slice[T](r, c) }); err != nil {
 				return n + inc, fmt.Errorf("buffer.ReadAsUint32Slice[%T]: %w", t, err)
 			}
 
@@ -200,7 +199,7 @@ func (v *Vector[T]) ReadFrom(r io.Reader) (n int64, err error) {
 
 		case uint16, int16:
 
-			if inc, err = buffer.ReadAsUint16Slice[T](r, *v); err != nil {
+			if inc, err = readGrowing(v, size, func(c []T) (int64, error) { return buffer.ReadAsUint16Slice[T](r, c) }); err != nil {
 				return n + inc, fmt.Errorf("buffer.ReadAsUint16Slice[%T]: %w", t, err)
 			}
 
@@ -208,7 +207,11 @@ func (v *Vector[T]) ReadFrom(r io.Reader) (n int64, err error) {
 
 		case uint8, int8:
 
-			if inc, err = buffer.ReadAsUint8Slice[T](r, *v); err != nil {
+			if inc, err = readGrowing(v, size, func(c []T) (int64, error) {
+				/* #nosec G103 -- behavior and consequences well understood, pointer type cast */
+				nint, err := io.ReadFull(r, *(*[]uint8)(unsafe.Pointer(&c)))
+				return int64(nint), err
+			}); err != nil {
 				return n + inc, fmt.Errorf("buffer.ReadAsUint8Slice[%T]: %w", t, err)
 			}
 
@@ -219,7 +222,22 @@ func (v *Vector[T]) ReadFrom(r io.Reader) (n int64, err error) {
 				return 0, fmt.Errorf("vector component of type %T does not comply to %T", t, new(io.ReaderFrom))
 			}
 
-			for i := range *v {
+			// Existing elements are reused, missing ones are appended as they are
+			// decoded, so that the allocation is driven by the data received and
+			// not by the (possibly corrupted) announced length.
+			if cap(*v) >= size {
+				*v = (*v)[:size]
+			} else {
+				*v = (*v)[:cap(*v)]
+			}
+
+			for i := 0; i < size; i++ {
+
+				if i == len(*v) {
+					var t T
+					*v = append(*v, t)
+				}
+
 				if inc, err = any(&(*v)[i]).(io.ReaderFrom).ReadFrom(r); err != nil {
 					var t T
 					return n + inc, fmt.Errorf("%T.ReadFrom: %w", t, err)
@@ -233,6 +251,37 @@ func (v *Vector[T]) ReadFrom(r io.Reader) (n int64, err error) {
 	default:
 		return v.ReadFrom(bufio.NewReader(r))
 	}
+}
+
+// readGrowing decodes size elements into *v with read. If *v has not enough
+// capacity it is grown chunk by chunk as the data arrives, so that a corrupted
+// length cannot trigger an allocation that the received data does not back.
+func readGrowing[T any](v *Vector[T], size int, read func(c []T) (int64, error)) (n int64, err error) {
+
+	if cap(*v) >= size {
+		*v = (*v)[:size]
+		return read(*v)
+	}
+
+	const chunk = 1 << 13
+
+	*v = (*v)[:0]
+
+	for len(*v) < size {
+
+		start := len(*v)
+
+		*v = append(*v, make([]T, min(size-start, chunk))...)
+
+		var inc int64
+		if inc, err = read((*v)[start:]); err != nil {
+			return n + inc, err
+		}
+
+		n += inc
+	}
+
+	return
 }
 
 // MarshalBinary encodes the object into a binary form on a newly allocated slice of bytes.
